@@ -14,6 +14,7 @@ import CfavmlModel.Gen.DriverTable
 import CfavmlModel.Gen.Kernels
 import CfavmlModel.Hand.ThreadPool
 import CfavmlModel.Hand.AlignedBuffer
+import CfavmlModel.Hand.AlignedBufferState
 import CfavmlModel.Hand.TransposeGlue
 import CfavmlModel.Spec.Wrappers
 import CfavmlModel.Spec.Dispatch
@@ -197,6 +198,62 @@ def runMath {w : Nat} (M : Math (BitVec w)) (method : String) (args : List (BitV
   | "div", [a, b] => outVal (M.div a b)
   | _, _ => "bad-request math method/arguments"
 
+/-! ### `abufs`: operation sequences on aligned buffers -/
+
+def parseBytes (t : String) : Option (List Nat) :=
+  if t == "-" then some [] else
+  let rec go : List Char → Option (List Nat)
+    | [] => some []
+    | [_] => none
+    | a :: b :: rest => do
+      let x ← hexDigit a
+      let y ← hexDigit b
+      let r ← go rest
+      pure ((x * 16 + y) :: r)
+  go t.toList
+
+def showBytes (bs : List Nat) : String :=
+  if bs.isEmpty then "-" else
+  String.ofList (bs.flatMap (fun b => [(Nat.toDigits 16 (b / 16 % 16)).headD '0', (Nat.toDigits 16 (b % 16)).headD '0']))
+
+def chunksOf (n : Nat) : Nat → List Nat → List (List Nat)
+  | 0, _ => []
+  | fuel + 1, l => if l.isEmpty || n == 0 then [] else l.take n :: chunksOf n fuel (l.drop n)
+
+def parseAOp (sizeT : Nat) (t : String) : Option Hand.AOp :=
+  match t.splitOn ":" with
+  | ["z", len] => do pure (.zeroed (← parseHex len))
+  | ["w", k, i, v] => do pure (.write (← parseHex k) (← parseHex i) (← parseBytes v))
+  | ["r", k, i] => do pure (.read (← parseHex k) (← parseHex i))
+  | ["c", k] => do pure (.clone (← parseHex k))
+  | ["f", d, s] => do pure (.cloneFrom (← parseHex d) (← parseHex s))
+  | ["s", k, v] => do
+    let bs ← parseBytes v
+    if sizeT == 0 || bs.length % sizeT != 0 then none
+    else pure (.copyFrom (← parseHex k) (chunksOf sizeT bs.length bs))
+  | ["i", k] => do pure (.info (← parseHex k))
+  | ["d", k] => do pure (.dump (← parseHex k))
+  | _ => none
+
+def showAOut : Hand.AOut → String
+  | .info len alloc => s!"n{toHex len},{toHex alloc}"
+  | .unit => "u"
+  | .elem v => s!"e{showBytes v}"
+  | .elems vs => s!"v{showBytes vs.flatten}"
+  | .fault .panic => "p"
+  | .fault _ => "O"
+  | .bad => "b"
+
+def abufsRequest (sz ops : String) : String :=
+  match parseHex sz with
+  | none => "bad-request abufs size"
+  | some s =>
+    let parsed := (ops.splitOn ";").map (parseAOp s)
+    if parsed.any (·.isNone) then "bad-request abufs operation"
+    else
+      let outs := (Hand.run s [] (parsed.filterMap id)).2
+      "ok " ++ ";".intercalate (outs.map showAOut)
+
 /-- environment values travel hex-encoded (`-` = unset, `=` = empty string) -/
 def decodeEnv (t : String) : Option (Option String) :=
   if t == "-" then some none
@@ -327,6 +384,7 @@ partial def handle (E : Env) (line : String) : Env × String :=
       let n := ((List.range t).filter (fun idx => (Hand.pinCurrent (dbg == "1") a idx true).isNone)).length
       (E, s!"ok {toHex n}")
     | _, _ => (E, "bad-request pin arguments")
+  | ["abufs", sz, ops] => (E, abufsRequest sz ops)
   | ["abuf", sz, len] =>
     match parseHex sz, parseHex len with
     | some s, some l =>
